@@ -394,6 +394,7 @@ func runC12(c *Ctx) {
 	c12Concurrent(c, r, "tcp")
 	// 4. a TCP server reading requests cut at every offset (incl. inside the length prefix)
 	c12ServerSegmentation(c, r)
+	c12ReplySource(c, r)
 	_ = os.Getenv
 }
 
@@ -802,5 +803,162 @@ func c12ServerSegmentation(c *Ctx, r *Rng) {
 			conn.Close()
 			c.Pred("server-segmentation", "server-reads-any-segmentation", fmt.Sprintf("cut=%d", cut), got == 2, fmt.Sprint(got, " replies"), "2 replies", true)
 		}
+		// pipelined: the first request and the first `cut` octets of the second arrive in ONE write (so one read of the
+		// server can run past the end of the first message), the rest and a third request afterwards
+		for cut := 0; cut <= len(frame); cut++ {
+			conn := ln.dial()
+			conn.SetDeadline(time.Now().Add(2 * time.Second))
+			go func() {
+				conn.Write(append(append([]byte{}, frame...), frame[:cut]...))
+				if cut < len(frame) {
+					conn.Write(frame[cut:])
+				}
+				conn.Write(frame)
+			}()
+			co := &dns.Conn{Conn: conn}
+			got := 0
+			for k := 0; k < 3; k++ {
+				m, err := co.ReadMsg()
+				if err != nil || m.Id != q.Id {
+					break
+				}
+				got++
+			}
+			conn.Close()
+			c.Pred("server-segmentation", "server-reads-pipelined-in-one-write", fmt.Sprintf("cut=%d", cut), got == 3, fmt.Sprint(got, " replies"), "3 replies", true)
+		}
+	}
+	c12TCPPipelinedLoopback(c, r)
+}
+
+// c12TCPPipelinedLoopback: the same over a real TCP connection, where the kernel hands the server whatever has arrived:
+// k queries written at once, each with its own name; every one must reach the handler whole and be answered in order.
+func c12TCPPipelinedLoopback(c *Ctx, r *Rng) {
+	l, err := net.Listen("tcp", "127.0.0.1:0")
+	if err != nil {
+		return
+	}
+	srv := &dns.Server{Listener: l, ReadTimeout: 2 * time.Second}
+	srv.Handler = dns.HandlerFunc(func(w dns.ResponseWriter, req *dns.Msg) {
+		m := new(dns.Msg)
+		m.SetReply(req)
+		w.WriteMsg(m)
+	})
+	started := make(chan struct{})
+	srv.NotifyStartedFunc = func() { close(started) }
+	go srv.ActivateAndServe()
+	<-started
+	defer srv.Shutdown()
+	rounds := c.Scale(20, 400)
+	for i := 0; i < rounds; i++ {
+		k := 2 + r.Intn(5)
+		var all []byte
+		var names []string
+		for j := 0; j < k; j++ {
+			q := new(dns.Msg)
+			q.SetQuestion(fmt.Sprintf("p%d-%d.%s.example.", i, j, strings.Repeat("y", 1+r.Intn(50))), dns.TypeA)
+			q.Id = uint16(1000 + j)
+			qb, _ := q.Pack()
+			all = append(append(all, putUint(nil, 2, uint64(len(qb)))...), qb...)
+			names = append(names, q.Question[0].Name)
+		}
+		conn, err := net.Dial("tcp", l.Addr().String())
+		if err != nil {
+			return
+		}
+		conn.SetDeadline(time.Now().Add(3 * time.Second))
+		conn.Write(all)
+		co := &dns.Conn{Conn: conn}
+		got := 0
+		for j := 0; j < k; j++ {
+			m, err := co.ReadMsg()
+			if err != nil || len(m.Question) != 1 || m.Question[0].Name != names[j] || m.Id != uint16(1000+j) {
+				break
+			}
+			got++
+		}
+		conn.Close()
+		c.Pred("server-segmentation", "tcp-pipelined-one-write", fmt.Sprintf("k=%d octets=%d", k, len(all)), got == k, fmt.Sprint(got, " replies"), fmt.Sprint(k, " replies in order"), true)
+	}
+}
+
+
+// c12ReplySource: a server bound to the wildcard address answers every request from the address it was sent to, also
+// when another datagram (to another local address) is read while the first request is still in its handler.
+func c12ReplySource(c *Ctx, r *Rng) {
+	rounds := c.Scale(4, 60)
+	for i := 0; i < rounds; i++ {
+		pc, err := net.ListenPacket("udp4", "0.0.0.0:0")
+		if err != nil {
+			c.Res.Notes = append(c.Res.Notes, "wildcard udp4 not available: "+err.Error())
+			return
+		}
+		port := pc.LocalAddr().(*net.UDPAddr).Port
+		entered := make(chan struct{}, 8)
+		release := make(chan struct{})
+		srv := &dns.Server{PacketConn: pc, ReadTimeout: 2 * time.Second}
+		srv.Handler = dns.HandlerFunc(func(w dns.ResponseWriter, req *dns.Msg) {
+			if strings.HasPrefix(req.Question[0].Name, "held") {
+				entered <- struct{}{}
+				<-release
+			}
+			m := new(dns.Msg)
+			m.SetReply(req)
+			w.WriteMsg(m)
+		})
+		started := make(chan struct{})
+		srv.NotifyStartedFunc = func() { close(started) }
+		go srv.ActivateAndServe()
+		<-started
+		a, err1 := net.Dial("udp4", fmt.Sprintf("127.0.0.1:%d", port))
+		b, err2 := net.Dial("udp4", fmt.Sprintf("127.0.0.%d:%d", 2+r.Intn(200), port))
+		if err1 != nil || err2 != nil {
+			c.Res.Notes = append(c.Res.Notes, "second loopback address not usable")
+			close(release)
+			srv.Shutdown()
+			return
+		}
+		ask := func(conn net.Conn, name string, id uint16) {
+			q := new(dns.Msg)
+			q.SetQuestion(name, dns.TypeA)
+			q.Id = id
+			qb, _ := q.Pack()
+			conn.Write(qb)
+		}
+		answered := func(conn net.Conn, id uint16) string {
+			conn.SetReadDeadline(time.Now().Add(1500 * time.Millisecond))
+			buf := make([]byte, 2048)
+			for {
+				n, err := conn.Read(buf)
+				if err != nil {
+					return "no reply: " + err.Error()
+				}
+				var m dns.Msg
+				if m.Unpack(buf[:n]) == nil && m.Id == id {
+					return "ok"
+				}
+			}
+		}
+		ask(a, "held.example.", 11)
+		select {
+		case <-entered:
+		case <-time.After(2 * time.Second):
+		}
+		// while the first request is in its handler, 1..3 more datagrams arrive for another local address
+		nb := 1 + r.Intn(3)
+		okB := true
+		for k := 0; k < nb; k++ {
+			ask(b, "free.example.", uint16(20+k))
+			if answered(b, uint16(20+k)) != "ok" {
+				okB = false
+			}
+		}
+		close(release)
+		gotA := answered(a, 11)
+		c.Pred("reply-source", "reply-from-the-address-asked", fmt.Sprintf("round=%d other-datagrams=%d", i, nb), gotA == "ok" && okB,
+			fmt.Sprintf("held client: %s; other client ok=%v", gotA, okB), "both clients answered from the address they asked", true)
+		a.Close()
+		b.Close()
+		srv.Shutdown()
 	}
 }
